@@ -629,9 +629,13 @@ def offered_names():
     return list(impl()['authentication'].BusAuthenticator.authenticators.keys())
 
 
+REJECT_LIMIT = 5        # "after more than five rejections" - from the property statement, not from the code
+
+
 def limits():
-    a = impl()['authentication'].BusAuthenticator
-    return a.MAX_REJECTS_ALLOWED, a(GUID).reject_msg
+    """The rejection limit of the property statement, and the REJECTED line it prescribes: the word REJECTED
+    followed by the names of the offered mechanisms."""
+    return REJECT_LIMIT, b'REJECTED ' + b' '.join(offered_names())
 
 
 LINE_FORMS = [b'AUTH', b'AUTH BOGUS', b'AUTH EXTERNAL', b'AUTH ANONYMOUS 6162', b'AUTH DBUS_COOKIE_SHA1 zz',
